@@ -557,20 +557,39 @@ func checkStartBlockTable(c *core.Ctx, mn int64) {
 	type rt struct {
 		cd   ir.Cond
 		name string
+		eq   bool // written with ==
 	}
 	var tests []rt
 	for _, cd := range ir.Conds(fn) {
 		b, ok := cd.V.(*ssa.BinOp)
-		if !ok || b.Op.String() != "==" {
+		if !ok || (b.Op.String() != "==" && b.Op.String() != "!=") {
 			continue
 		}
 		if p, ok := ir.Strip(b.X).(*ssa.Parameter); ok && p.Name() == "router" {
 			if gn := globalName(b.Y); gn != "" {
-				tests = append(tests, rt{cd, gn})
+				tests = append(tests, rt{cd, gn, b.Op.String() == "=="})
 			} else if k, ok := ir.Strip(b.Y).(*ssa.Const); ok {
-				tests = append(tests, rt{cd, k.Value.String()})
+				tests = append(tests, rt{cd, k.Value.String(), b.Op.String() == "=="})
 			}
 		}
+	}
+	// edges that contradict "router == name"
+	routerFact := func(r *ir.Reach, name, val string) bool {
+		found := false
+		for _, t := range tests {
+			isIt := t.name == name || (val != "" && t.name == val)
+			if isIt {
+				found = true
+			}
+			// the edge on which (router == t.name) has the wrong truth value
+			wrongWhenCondTrue := isIt != t.eq
+			if wrongWhenCondTrue {
+				r.Cut[ir.Edge{From: t.cd.If.Block(), Idx: t.cd.TrueIdx()}] = true
+			} else {
+				r.Cut[ir.Edge{From: t.cd.If.Block(), Idx: t.cd.FalseIdx()}] = true
+			}
+		}
+		return found
 	}
 	// the final comparison block < startBlock: find phi compared with parameter block
 	var phi *ssa.Phi
@@ -583,11 +602,42 @@ func checkStartBlockTable(c *core.Ctx, mn int64) {
 			phi, _ = ir.Strip(b.Y).(*ssa.Phi)
 		}
 	}
+	netCuts := eng.NetFactCuts(fn, mn)
 	if phi == nil {
-		c.Broken("C21.start-block-table", fn, "block < startBlock test", c.P.Rel(fn.Pos()), "could not find the start-block phi")
+		// written without a start-block variable: `if block >= K { return nil }` under the router and
+		// network tests.  Decided directly: for each listed router, on main net, no success return is
+		// reachable without passing block >= K for a constant K at least the frozen start block.
+		isBlock := func(v ssa.Value) bool { p, ok := ir.Strip(v).(*ssa.Parameter); return ok && p.Name() == "block" }
+		any := false
+		for _, name := range ir.SortedKeys(c21StartBlocks) {
+			want := c21StartBlocks[name]
+			val := ""
+			if k, err := c.P.Const(pkUtils, name); err == nil {
+				val = k.String()
+			}
+			g := relGuard("block >= start block", isBlock, func(v ssa.Value) bool { k, ok := ir.ConstInt(v); return ok && k >= want }, token.GEQ)
+			pass := ir.PassEdges(fn, g.G)
+			if len(pass) == 0 {
+				continue
+			}
+			any = true
+			r := ir.NewReach(fn).CutEdges(netCuts).CutEdges(pass)
+			found := routerFact(r, name, val)
+			r.Run(nil)
+			leak := false
+			for _, s := range ir.SuccessSinks(fn) {
+				if r.SinkReachable(s) {
+					leak = true
+				}
+			}
+			c.Decide(found && !leak, "C21.start-block-table", fn, "router "+name+" gated until block "+sprintf("%d", want)+" on main net", c.P.Rel(fn.Pos()),
+				sprintf("router test present=%v; constant form: success only after block >= K, K >= %d", found, want))
+		}
+		if !any {
+			c.Broken("C21.start-block-table", fn, "block < startBlock test", c.P.Rel(fn.Pos()), "neither a start-block variable nor a constant start-block comparison found")
+		}
 		return
 	}
-	netCuts := eng.NetFactCuts(fn, mn)
 	for _, name := range ir.SortedKeys(c21StartBlocks) {
 		want := c21StartBlocks[name]
 		// resolve the router constant's value to match tests written with constants
@@ -596,15 +646,7 @@ func checkStartBlockTable(c *core.Ctx, mn int64) {
 			val = k.String()
 		}
 		r := ir.NewReach(fn).CutEdges(netCuts)
-		found := false
-		for _, t := range tests {
-			if t.name == name || (val != "" && t.name == val) {
-				found = true
-				r.Cut[ir.Edge{From: t.cd.If.Block(), Idx: t.cd.FalseIdx()}] = true
-			} else {
-				r.Cut[ir.Edge{From: t.cd.If.Block(), Idx: t.cd.TrueIdx()}] = true
-			}
-		}
+		found := routerFact(r, name, val)
 		r.Run(nil)
 		// which phi edges are reachable, and what values do they carry?
 		minv := int64(-1)
